@@ -336,6 +336,8 @@ struct Model {
     /// unsolicited responses in arrival order: (seq, must be accepted, CON, arrival time)
     unsol_expected: Vec<(u8, bool, bool, u64)>,
     unsol_accepted: Vec<u8>,
+    /// sequence numbers of the unsolicited fragments handed to the ReadHandler (begin_fragment with read type Unsolicited)
+    unsol_to_handler: Vec<u8>,
     unsol_confirmed: Vec<u8>,
     /// the unsolicited fragment accepted last on this connection (a byte-identical one after it is a repeat)
     last_accepted_unsol: Option<Vec<u8>>,
@@ -352,6 +354,7 @@ impl Model {
             running: None,
             unsol_expected: Vec::new(),
             unsol_accepted: Vec::new(),
+            unsol_to_handler: Vec::new(),
             unsol_confirmed: Vec::new(),
             last_accepted_unsol: None,
         };
@@ -674,6 +677,11 @@ pub fn analyse(
                     m.observe(iin);
                 }
             }
+            H::Begin { assoc, seq, uns: true, .. } => {
+                if let Some(m) = models.get_mut(assoc) {
+                    m.unsol_to_handler.push(*seq);
+                }
+            }
             H::Unsolicited { assoc, seq, dup, .. } => {
                 if let Some(m) = models.get_mut(assoc) {
                     m.unsol_accepted.push(*seq | if *dup { 0x10 } else { 0 });
@@ -766,7 +774,14 @@ pub fn analyse(
                 .filter(|e| e.1)
                 .map(|e| (e.0, certain(e.3)))
                 .collect();
-            if let Some(v) = check(exp_acc, &m.unsol_accepted, "delivered") {
+            if let Some(v) = check(exp_acc.clone(), &m.unsol_accepted, "delivered") {
+                violation = Some(v);
+                break;
+            }
+            // the same for what reaches the measurement handler (the application callback above is the library's own word):
+            // everything accepted except repeats, and nothing else
+            let exp_handler: Vec<(u8, bool)> = exp_acc.iter().copied().filter(|e| e.0 & 0x10 == 0).collect();
+            if let Some(v) = check(exp_handler, &m.unsol_to_handler, "handed to the measurement handler") {
                 violation = Some(v);
                 break;
             }
